@@ -140,3 +140,31 @@ for _id, (_t, _l) in SHARED.items():
         if _t:
             t = t + " + " + _t
         CLAIMED[_id] = (t, text + _l, note, ref)
+
+# rules added after the fourth round of seeded changes / fifth round of refactorings
+ROUND4 = {
+ "C01": ("loop-completeness rule for the q-gram join and the scoring loop", " R01.5: the loop over the source occurrences of a q-gram and the loop over a document's candidate ranges are left only when exhausted. Shared R06.9/R06.10: the position offset left by a hyphenated word ends with its line."),
+ "C02": ("", " Shared R04.6/R04.10: every word keeps its own rune through the diff library (the id->rune step read as a table at the surrogate boundaries; overflow of the rune alphabet is known finding D45)."),
+ "C03": ("immutability rule for Match objects", " R03.13: the fields of a Match are written only by the composite literal that builds it."),
+ "C04": ("table reading of the id<->rune conversion by conditional constant propagation", " R04.10: idToRune/runeToID evaluated at the boundaries of the surrogate range: no surrogate, strictly increasing, exact round trip; an unbounded alphabet is known finding D45."),
+ "C05": ("", " Shared R03.13 (a notice pseudo-match is not extended after construction) and R06.9/R06.10 (the position offset is reset at every counted line break)."),
+ "C06": ("back-edge value rule for the line's position offset, control-dependence rule for the CR before a hyphen join", " R06.10: every counted line break takes the position offset back to zero. R06.11: white space flushes the open word only after the rune was tested against the carriage return (CR LF texts, D43). R06.3 covers the word and line buffers and requires the refill step to hand the rune loop's values round unchanged. Shared R03.9/R03.11 (line accounting)."),
+ "C08": ("", " R08.3: nil is the reader's error only before the first Read (an error reset behind a Read is reported). R06.3: buffers are state; the refill step changes nothing."),
+ "C10": ("quadratic-rewrite shape rule, either-or rule over two cooperating sites", " R10.6 also reports a string rewritten to a fixed point by whole-string replacement passes (D41). R10.7c: a document that reaches the second pass has a search set - either every corpus store builds it or the first pass admits by a comparison that is false for NaN."),
+ "C11": ("loop-nesting rule for the line-break writer, same-loop rule for word writes", " R11.9 requires the line-break write to be repeated (a loop inside the token loop). R11.11: every word is written in the loop that first writes the line breaks leading to its line (D44). Shared R06.4 and R06.6."),
+ "C12": ("no-defer-in-loop rule", " R12.11: nothing is deferred inside the loop over the corpus files."),
+ "C13": ("", " Shared R17.4: a candidate's byte range ends with its last token."),
+ "C14": ("", " The effect engine's heap summary has one cell per element type (slices, arrays, variadic argument arrays), so that a pointer appended through a variadic array keeps its provenance."),
+ "C15": ("argument-identity rule for the inner classifier, error-return rule for the archive iterator", " R15.8: the inner string classifier is built with the License's own threshold. R15.9: an error of tar.Reader.Next other than EOF is returned."),
+ "C16": ("", " Shared R15.8 and R15.9."),
+ "C17": ("field-provenance rule for range bounds (sums and differences expanded)", " R17.6: target bounds of a range are computed from target bounds only, source bounds from source bounds only; a difference of two bounds (a length) may cross. R17.1 accepts substring tokens built by a package-level helper."),
+ "C18": ("sibling-consistency rule over the language table read by constant propagation", " R18.12: the languages exempt from string lexing are all the languages of their comment style (D42)."),
+ "C19": ("dominating-fact rule for SkipDir, literal-provenance rule for recorded results", " R19.9: the walk callback returns SkipDir only behind info.IsDir(). R19.10: what is appended to the result list is a LicenseType built in this call."),
+ "C20": ("length algebra of the heap adapter along every path, loop-completeness rule for the set mutators", " R20.5: Push grows the array by one, Pop shrinks it by one, Swap leaves its length alone, on every path. R20.6: Insert/Delete look at every element they are given."),
+}
+for _id, (_t, _l) in ROUND4.items():
+    if _id in CLAIMED:
+        t, text, note, ref = CLAIMED[_id]
+        if _t:
+            t = t + " + " + _t
+        CLAIMED[_id] = (t, text + _l, note, ref)
